@@ -289,7 +289,10 @@ func (st *State) callSSA(fn *ssa.Function, args []Value, env []Value, caller *fr
 			return st.callSSA(rep, args, nil, caller)
 		}
 		if in, ok := intrinsics[name]; ok {
-			return in(st, caller, fn, args)
+			if st.noIntrinsic != fn {
+				return in(st, caller, fn, args)
+			}
+			st.noIntrinsic = nil
 		}
 		if fn.Pkg != nil && fn.Pkg.Pkg.Path() == vm.APIPath {
 			return st.callAPI(fn, args, caller)
